@@ -153,6 +153,15 @@ def _check_tree_mode(nodes, case, acc, sub, falsy):
             acc.count('nontrivial')
         for k in set(kinds):
             acc.count('kind_' + k)
+    # exactly once: no object (node, node list, argument record) is handed to a callback twice in one run
+    seen_ids = {}
+    for e in rec.events:
+        seen_ids[e[1]] = seen_ids.get(e[1], 0) + 1
+    dup = [e[0] for e in rec.events if seen_ids[e[1]] > 1]
+    if dup and rec.events == ref.events:
+        acc.violation(ID, sub, case, dict(kind='object-visited-more-than-once', at=dup[0], falsy_results=falsy),
+                      observed=repr([(e[0], e[2], e[3]) for e in rec.events])[:800])
+        return
     if rec.events != ref.events:
         # classify
         ids_rec = [e[1] for e in rec.events]
